@@ -233,6 +233,15 @@ func (f *Frame) callContract(in ssa.Instruction, ct *Contract, callee *ssa.Funct
 	fname := e.P.fnName(f.fn)
 	old := st.clone()
 	env := &specEnv{f: f, st: st, old: old, names: bind, callSite: true}
+	if callee != nil && callee == f.topFrame().fn && ct.Decreases != nil {
+		// recursive call: the measure must strictly decrease and be bounded below
+		top := f.topFrame()
+		m0 := top.specTerm(ct.Decreases.Expr, &specEnv{f: top, st: top.entry, old: top.entry})
+		m1 := f.specTerm(ct.Decreases.Expr, env)
+		e.oblige("loop-decreases", fmt.Sprintf("%s:recursion:decreases", fname), ct.Props, guard, fmt.Sprintf("(and (>= %s 0) (< %s %s))", m0.T, m1.T, m0.T), f.pos(in.Pos()), ct.Decreases.Text)
+	} else if callee != nil && callee == f.topFrame().fn {
+		e.oblige("loop-decreases", fmt.Sprintf("%s:recursion:decreases", fname), ct.Props, guard, "false", f.pos(in.Pos()), "recursive function without a decreases clause")
+	}
 	for _, rq := range ct.Requires {
 		t := f.specBool(rq.Expr, env)
 		props := rq.Props
@@ -290,6 +299,7 @@ func (f *Frame) callContract(in ssa.Instruction, ct *Contract, callee *ssa.Funct
 		t := f.specBool(en.Expr, env2)
 		e.assume(guard, t)
 	}
+	f.useLemmas(guard, st)
 	return res
 }
 
@@ -326,13 +336,17 @@ func (f *Frame) applyModifies(ct *Contract, callee *ssa.Function, env *specEnv, 
 	type target struct {
 		ref    string
 		lo, hi string // for element regions ("" = whole object)
-		path   []PathStep
+		cond   string // "" = unconditional
 	}
 	targets := map[string][]target{}
 	envOld := &specEnv{f: env.f, st: old, old: old, names: env.names, callSite: true}
 	for _, m := range ct.Modifies {
+		cond := ""
+		if len(m.Exprs) > 0 {
+			cond = f.specBool(m.Exprs[0], envOld)
+		}
 		for _, mt := range f.modTargets(m.Expr, envOld) {
-			targets[mt.heap] = append(targets[mt.heap], target{ref: mt.ref, lo: mt.lo, hi: mt.hi})
+			targets[mt.heap] = append(targets[mt.heap], target{ref: mt.ref, lo: mt.lo, hi: mt.hi, cond: cond})
 			w[mt.heap] = true
 			if _, ok := e.heapSort[mt.heap]; !ok {
 				e.heapSort[mt.heap] = mt.sort
@@ -362,7 +376,11 @@ func (f *Frame) applyModifies(ct *Contract, callee *ssa.Function, env *specEnv, 
 		}
 		var excl []string
 		for _, t := range ts {
-			excl = append(excl, fmt.Sprintf("(not (= r %s))", t.ref))
+			if t.cond != "" {
+				excl = append(excl, not(and(t.cond, fmt.Sprintf("(= r %s)", t.ref))))
+			} else {
+				excl = append(excl, fmt.Sprintf("(not (= r %s))", t.ref))
+			}
 		}
 		e.assert(fmt.Sprintf("(forall ((r Int)) (! (=> %s (= (select %s r) (select %s r))) :pattern ((select %s r))))",
 			and(append([]string{fmt.Sprintf("(<= (base r) %s)", allocBefore)}, excl...)...), after, before, after))
